@@ -16,6 +16,8 @@ def seeds():
             if d.get("exit") == 1:
                 by.append(pid)
                 req = d.get("replay_required") or ""
+                if isinstance(req, list):
+                    req = "; ".join(str(x) for x in req)
                 nf = any("no-failing-input-found" in l for l in d.get("lines", []))
                 how.append(("%s: " % pid) + ("proof obligation / correspondence broken, no failing input found" if nf and not req else "failing input: " + re.sub(r"\s+", " ", req)[:170]))
         out.append("| %s | %s | %s | %s |" % (sid, summ.replace("|", "/"), ", ".join(by) or "MISSED", "; ".join(how).replace("|", "/")))
